@@ -33,7 +33,10 @@ func drvRowKind(k int) drvRow {
 // drvData: two forked rows plus one fixed row.
 func drvData() []drvRow {
 	// the fixed row also has a column that is itself called "count", like the result column
-	rows := []drvRow{drvRowKind(verifChoice("row0", 6)), drvRowKind(verifChoice("row1", 6)), {"a": "x", "b": "p", "count": "few"}}
+	rows := []drvRow{drvRowKind(verifChoice("row0", 6)), drvRowKind(verifChoice("row1", 6)), {"a": "x", "b": "p", "count": "few"},
+		// a value and its extension by a blank (a byte below ',' and most other separators): rows
+		// ordered by a joined or escaped key instead of value by value come out in another order
+		{"a": "x y", "b": "p"}}
 	return rows
 }
 
